@@ -438,6 +438,10 @@ def run_check(modname, tier, seed=0):
     pid = mod.PROPERTY
     hs = mod.harnesses(tier)
     assert len({h.name for h in hs}) == len(hs), 'duplicate harness names'
+    only = os.environ.get('VERIF_ONLY')       # development aid: run a subset of the harnesses; no evidence is written, no vacuity guard
+    if only:
+        import re as _re
+        hs = [h for h in hs if _re.search(only, h.name)]
     deadline = getattr(mod, 'DEADLINE', {}).get(tier, 150 if tier == 'quick' else 1500)
     # optional engine self-tests of the module (shim validation etc.)
     selftest_err = None
@@ -482,7 +486,7 @@ def run_check(modname, tier, seed=0):
             errors.append({'what': 'vacuous harness: no obligation reached on any path', 'harness': h.name})
     # expected labels (reachability twins): every label listed by the module must have been reached
     for lab in getattr(mod, 'MUST_REACH', []):
-        if tot['labels'].get(lab, 0) == 0 and not selftest_err:
+        if tot['labels'].get(lab, 0) == 0 and not selftest_err and not only:
             errors.append({'what': 'obligation never reached (vacuity guard)', 'label': lab})
     wall = time.time() - t0
     exhaustive_all = all(p['exhaustive'] for p in per_h) and not errors
@@ -514,9 +518,10 @@ def run_check(modname, tier, seed=0):
         'assumptions': list(getattr(mod, 'ASSUMPTIONS', [])) + ['floats modelled as exact reals (IEEE rounding outside the claim)'],
         'wall_s': round(wall, 2), 'violations': len(violations),
     }
-    os.makedirs(os.path.join(VERIF, 'evidence'), exist_ok=True)
-    with open(os.path.join(VERIF, 'evidence', pid + '.json'), 'w') as f:
-        json.dump(ev, f, indent=1, default=repr)
+    if not only:
+        os.makedirs(os.path.join(VERIF, 'evidence'), exist_ok=True)
+        with open(os.path.join(VERIF, 'evidence', pid + '.json'), 'w') as f:
+            json.dump(ev, f, indent=1, default=repr)
     # ---- report
     print('%s tier=%s: %d harnesses, %d paths, %d/%d obligations discharged, %d unknown, %d queries, solver %.1fs, wall %.1fs, '
           'validated %d witness runs (%d mismatches)' % (pid, tier, len(hs), tot['paths'], tot['discharged'], tot['checks'], tot['unknown'],
